@@ -1098,6 +1098,9 @@ where
           _ => unreachable!(),
         };
 
+        // In case the command queue is full: Store the waker first, so that the
+        // Writer wakes us when it makes room.
+        *writer.cc_upload_waker.lock().unwrap() = Some(cx.waker().clone());
         match writer
           .cc_upload
           .try_send(WriterCommand::WaitForAcknowledgments {
@@ -1105,7 +1108,10 @@ where
           }) {
           Ok(()) => {
             *self = AsyncWaitForAcknowledgments::Waiting { ack_wait_receiver };
-            Poll::Pending
+            // Now poll the receiver. Returning Pending without doing that would
+            // leave no waker registered anywhere, so we would never be woken up.
+            // This also notices at once, if the waiting is already over.
+            self.as_mut().poll(cx)
           }
 
           Err(TrySendError::Full(WriterCommand::WaitForAcknowledgments {
